@@ -333,7 +333,7 @@ func checkC10Counts(r *core.Run, p *core.Program, a *analysis) {
 		"beginContainer":  {"++($_this.containerDepth); if($_this.containerDepth>$_this.config.Rules.MaxContainerDepth){reject}; ctx.stackRule($rule,$dataType,$expectedObjectCount)"},
 		"endContainerLike": {"ctx.UnstackRule(); if($notifyParent){cur.OnChildContainerEnded($_this,$cType)}"},
 		"EndContainer": {"if($_this.containerDepth==0){reject}; if($_this.CurrentEntry.ExpectedObjectCount>=0&&$_this.CurrentEntry.CurrentObjectCount!=$_this.CurrentEntry.ExpectedObjectCount){reject}; if($_this.CurrentEntry.DataType==DataTypeRecordType){ctx.addRecordType($_this.recordTypeName,$_this.CurrentEntry.CurrentObjectCount)}; --($_this.containerDepth); ctx.endContainerLike($notifyParent)"},
-		"addRecordType":  {"if($exists){reject}"},
+		"addRecordType":  {"if($exists){reject}; set($_this.recordTypes[$id]=$objectCount)"},
 		"NotifyNewObject": {"if($isRealObject){++($_this.CurrentEntry.CurrentObjectCount); if($_this.CurrentEntry.ExpectedObjectCount>=0&&$_this.CurrentEntry.CurrentObjectCount>$_this.CurrentEntry.ExpectedObjectCount){reject}}; ++($_this.objectCount); if($_this.objectCount>$_this.config.Rules.MaxObjectCount){reject}"},
 		"BeginMarkerKeyable":    {"set($_this.markerID=string($id)); ctx.stackRule(markedObjectKeyableRule,$dataType,noObjectCount); set($_this.CurrentEntry.MarkerID=$_this.markerID)"},
 		"BeginMarkerAnyType":    {"set($_this.markerID=string($id)); ctx.stackRule(markedObjectAnyTypeRule,$dataType,noObjectCount); set($_this.CurrentEntry.MarkerID=$_this.markerID)"},
